@@ -14,6 +14,11 @@ def build(ck):
 
 RULE = ("corpus 1 = the C05 corpus: nesting shapes (compositions up to depth D of 38 frame kinds, see C05) x {uncaught, under a catch} x "
         "k = 0 (fault-free) and EVERY k = 1..N(P) with error(\"*verif fault k\") [pass 2: a thrown array] raised at dispatch k by hook H1; "
+        "part 'sites': 100 error sites as the leaf of every shape, caught and uncaught: the 16 genuine error sites of C05 and 84 'callback efun "
+        "with an unresolvable / wrong callback' leaves = {filter on array/mapping (also with extra args), map on array/mapping/string, sort_array, "
+        "unique_array, unique_mapping, implode, call_out, add_action, input_to} x callback target {0, destructed object, unloadable file name, "
+        "object without that function, a float as target, a float as callback} with ref-counted container contents (the error is raised by the "
+        "efun's own argument processing, before any callback instruction); "
         "corpus 2 = sharing patterns: one array/mapping/buffer/class instance/function pointer/string/object held by r holders, "
         "r in {1,2,3,65535,65536,65537} x holder kind {array elements, mapping values, bound funptr arguments, pending call_out arguments, "
         "add_action carry-over arguments} (locals r<=3 and 60 frames, globals of r<=3 and 300 clones) x release order {ascending, descending, "
@@ -73,6 +78,8 @@ def run(ck):
         ck.enum(p, ["--depth=1", "--kinds=all", "--mode=throw"], "d1-all-throw", batch=32, deadline_s=40, jobs=J, timeout_ms=400000)
         ck.enum(p, ["--depth=2", "--kinds=mini", "--mode=error"], "d2-mini-error", batch=32, deadline_s=50, jobs=J, timeout_ms=400000)
         ck.enum(a, ["--depth=1", "--kinds=all", "--mode=error"], "asan-d1-all-error", batch=16, deadline_s=90, jobs=J, timeout_ms=400000)
+        ck.enum(p, ["--depth=1", "--kinds=all", "--part=sites"], "d1-all-sites", batch=32, deadline_s=60, jobs=J, timeout_ms=400000)
+        ck.enum(a, ["--depth=1", "--kinds=mini", "--part=sites"], "asan-d1-mini-sites", batch=16, deadline_s=60, jobs=J, timeout_ms=400000)
         ck.enum(p, ["--part=share", "--big=3", "--noclones=1"], "share-boundary", batch=2, deadline_s=150, jobs=J, timeout_ms=700000)
         ck.enum(a, ["--part=share", "--big=3", "--noclones=1"], "asan-share-boundary", batch=2, deadline_s=150, jobs=J, timeout_ms=700000)
     else:
@@ -81,6 +88,8 @@ def run(ck):
         ck.enum(p, ["--depth=3", "--kinds=mini", "--mode=error"], "d3-mini-error", batch=32, deadline_s=300, jobs=J, timeout_ms=400000)
         ck.enum(a, ["--depth=2", "--kinds=core", "--mode=error"], "asan-d2-core-error", batch=16, deadline_s=420, jobs=J, timeout_ms=400000)
         ck.enum(a, ["--depth=1", "--kinds=all", "--mode=throw"], "asan-d1-all-throw", batch=16, deadline_s=120, jobs=J, timeout_ms=400000)
+        ck.enum(p, ["--depth=2", "--kinds=mini", "--part=sites"], "d2-mini-sites", batch=32, deadline_s=200, jobs=J, timeout_ms=400000)
+        ck.enum(a, ["--depth=1", "--kinds=all", "--part=sites"], "asan-d1-all-sites", batch=16, deadline_s=200, jobs=J, timeout_ms=400000)
         ck.enum(p, ["--part=share", "--big=1"], "share-all", batch=2, deadline_s=300, jobs=J, timeout_ms=700000)
         ck.enum(a, ["--part=share", "--big=2"], "asan-share-boundary", batch=2, deadline_s=200, jobs=J, timeout_ms=700000)
     fix_replays(ck)
